@@ -328,7 +328,7 @@ def held_obligations(res, facts, inst, ps, mname, prio, pre, post, o, msg):
         got = post.get('note_num')
         res.ob('R-HELD', inst + '|select', isinstance(got, Num) and got.term == exp_note,
                'note_num after note-on = %r, expected %r' % (got, exp_note), where, key='R-HELD:select:%s' % inst)
-        v = post.get('velocity')
+        v = level(facts, o.ctx, post, 'velocity')
         res.ob('R-HELD', inst + '|velocity', isinstance(v, Num) and v.term == vel.scale(Fr(1, 127)),
                'velocity = %r, expected msg.vel/127' % (v,), where, key='R-HELD:velocity:%s' % inst)
         res.ob('R-HELD', inst + '|gate', g is True, 'gate after note-on = %r' % (post.get('gate'),), where, key='R-HELD:gate:%s' % inst)
@@ -410,6 +410,23 @@ def check_edge_getters(res, facts):
                        'returned %s, latch after %s, changed %s' % (ret, after, ch), where_of(facts, RX + '::' + meth))
 
 
+def level(facts, ctx, rx, name):
+    """the value of a level / switch as the properties define it.  When the field holds it directly that is the field; when
+    the receiver stores it in another representation (the 7-bit value as received, scaled in the getter) it is what the
+    public getter of the same name returns on this state."""
+    v = rx.get(name)
+    if isinstance(v, (Num, BoolV)):
+        return v
+    with structural():
+        it = Interp(facts)
+        midi_invariants(it)
+        st = State()
+        st.ctx = ctx.copy()
+        outs, cell = run_method(it, st, RX + '::' + name, copy.deepcopy(rx), [])
+    rets = [o.ret for o in outs if o.status == 'returned']
+    return rets[0] if len(rets) == 1 else v
+
+
 def check_level_getters(res, facts):
     """level getters take &self and return the field (observation cannot disturb state)"""
     rxf = Rx(facts)
@@ -424,7 +441,8 @@ def check_level_getters(res, facts):
         res.absorb(it)
         for o in sem_iter(outs):
             post = o.cells[cell]
-            ok = o.status == 'returned' and not spec_fields_changed(pre, post, RX_FIELDS) and same(o.ret, pre.get(g))
+            direct = isinstance(pre.get(g), (Num, BoolV))      # otherwise the getter *defines* the level (stored as received)
+            ok = o.status == 'returned' and not spec_fields_changed(pre, post, RX_FIELDS) and (same(o.ret, pre.get(g)) or not direct)
             res.ob('R-GETTER', g, ok, 'returns %r, changed %s' % (o.ret, spec_fields_changed(pre, post, RX_FIELDS)), where_of(facts, RX + '::' + g))
             n += 1
     return n
@@ -456,7 +474,7 @@ def check_routing(res, facts, only_other=False):
             continue
         post = o.cells[cell]
         lo, hi = o.ctx.rng(cc)
-        ch = set(spec_fields_changed(pre, post, RX_FIELDS))
+        ch = {c_.split('.')[0] for c_ in spec_fields_changed(pre, post, RX_FIELDS)}   # by canonical field, whatever its inner layout
         if lo == hi and int(lo) in CC_TABLE:
             n = int(lo)
             seen_cc.add(n)
@@ -464,11 +482,11 @@ def check_routing(res, facts, only_other=False):
             if only_other:
                 continue
             if kind == 'scale':
-                got = post.get(field)
+                got = level(facts, o.ctx, post, field)
                 ok = ch <= {field} and isinstance(got, Num) and got.term == val.scale(Fr(1, 127))
                 res.ob('R-ROUTE', 'cc%d->%s' % (n, field), ok, 'changed %s; %s = %r, expected msg.val/127' % (sorted(ch), field, got), where)
             elif kind == 'switch':
-                got = post.get(field)
+                got = level(facts, o.ctx, post, field)
                 sw = bool_of(o.ctx, got)
                 vlo, vhi = o.ctx.rng(val)
                 if sw is not None:
@@ -490,7 +508,7 @@ def check_routing(res, facts, only_other=False):
                     if fn_ not in defaults or not same(post.get(fn_), defaults[fn_]):
                         ok = False
                         bad.append('%s=%r (power-on %r)' % (fn_, post.get(fn_), defaults.get(fn_)))
-                ok = ok and ch <= set(CONTROLLER_FIELDS)
+                ok = ok and {c_.split('.')[0] for c_ in ch} <= set(CONTROLLER_FIELDS)
                 res.ob('R-ROUTE', 'cc121->reset', ok, 'not restored to the constructor defaults: %s; changed %s' % (bad, sorted(ch)), where)
             elif kind == 'notes_off':
                 ok = ch <= {'held_down_notes', 'gate', 'rising_gate', 'falling_gate'}
@@ -526,8 +544,8 @@ def check_routing(res, facts, only_other=False):
             res.ob('R-ROUTE', 'pitch_bend', False, 'path ends with %s: %s' % (o.status, o.panic_info), where)
             continue
         post = o.cells[cell]
-        ch = set(spec_fields_changed(pre, post, RX_FIELDS))
-        got = post.get('pitch_bend')
+        ch = {c_.split('.')[0] for c_ in spec_fields_changed(pre, post, RX_FIELDS)}   # by canonical field, whatever its inner layout
+        got = level(facts, o.ctx, post, 'pitch_bend')
         lo, hi = o.ctx.rng(v14)
         if lo > 8192 or o.ctx.decide(cmp_term('Gt', v14, 8192)) is True:
             exp = (v14 - 8192).scale(Fr(1, 8191))
